@@ -11,7 +11,7 @@
    map from the document's labels to nodes: the known node for a label the caller fixed
    (shared dict, preserve_bnode_ids), otherwise a blank node that occurs nowhere in [prev];
    [supply_ok fresh]: the supply never repeats and stays clear of ids in use. *)
-From RV Require Import Parse.Model Parse.Proofs Parse.General Parse.Machines Parse.MachineProofs Parse.MachineRefine.
+From RV Require Import Parse.Model Parse.Proofs Parse.General Parse.Machines Parse.MachineProofs Parse.MachineRefine Parse.SupplyIndep Parse.SupplyIndepU.
 
 (* The tie between model and checker: on every well-formed case on which no known-finding
    trigger fires, the specification checker accepts what the model computes.  [wf] is the shape
@@ -335,6 +335,84 @@ Theorem C12_machines_refine_abstract_run : forall nid ds g,
   run (fresh_of (m_supplies nid g ds)) 0 (g_envs g) (g_store g) ds = m_obs nid g ds.
 Proof. exact refine_run_obs. Qed.
 Print Assumptions C12_machines_refine_abstract_run.
+
+(* ================= round 5b: the run does not depend on the supply ================================= *)
+(* Two supplies that never repeat and stay clear of constants and kept labels give, over the same
+   sequence of calls - shared bnode_context dicts, long-lived parser objects, preserve_bnode_ids,
+   failing calls, kept labels, any syntax; no condition on known-finding triggers - runs that are
+   related call by call by ONE correspondence of nodes, fixed for the whole sequence:
+   [node_rel fresh1 fresh2] relates a constant or kept label to itself and the node supply 1 made
+   for (call j, label l) to the node supply 2 made for (call j, label l).  The stores are related
+   quad by quad in the same order, the raised flags are equal; the long-lived dicts are related
+   entry by entry all along (invariant of the proof, [call_step_rel]). *)
+Theorem C12_run_supply_independent : forall fresh1 fresh2 : N -> N -> N,
+  (forall j l j' l', fresh1 j l = fresh1 j' l' -> j = j' /\ l = l') ->
+  (forall j l j' l', fresh2 j l = fresh2 j' l' -> j = j' /\ l = l') ->
+  (forall j l, (1000 <= fresh1 j l)%N /\ N.even (fresh1 j l) = true) ->
+  (forall j l, (1000 <= fresh2 j l)%N /\ N.even (fresh2 j l) = true) ->
+  forall init ds, init_wf init = true -> forallb doc_wf ds = true ->
+  obs_rel (node_rel fresh1 fresh2) (run fresh1 0 [] init ds) (run fresh2 0 [] init ds).
+Proof.
+  intros f1 f2 I1 I2 R1 R2 init ds Hi Hd. apply run_rel; auto.
+  - constructor.
+  - now apply init_rel.
+Qed.
+Print Assumptions C12_run_supply_independent.
+
+(* the correspondence is a bijection between the nodes of the two runs (functional and injective),
+   and the identity on constants and kept labels *)
+Theorem C12_node_correspondence_bijective : forall fresh1 fresh2 : N -> N -> N,
+  (forall j l j' l', fresh1 j l = fresh1 j' l' -> j = j' /\ l = l') ->
+  (forall j l j' l', fresh2 j l = fresh2 j' l' -> j = j' /\ l = l') ->
+  (forall j l, (1000 <= fresh1 j l)%N /\ N.even (fresh1 j l) = true) ->
+  (forall j l, (1000 <= fresh2 j l)%N /\ N.even (fresh2 j l) = true) ->
+  (forall n a b, node_rel fresh1 fresh2 n a -> node_rel fresh1 fresh2 n b -> a = b) /\
+  (forall a b n, node_rel fresh1 fresh2 a n -> node_rel fresh1 fresh2 b n -> a = b) /\
+  (forall n, stable_b n = true -> node_rel fresh1 fresh2 n n) /\
+  (forall j l, node_rel fresh1 fresh2 (fresh1 j l) (fresh2 j l)).
+Proof.
+  intros f1 f2 I1 I2 R1 R2. repeat split.
+  - apply rel_fun; auto.
+  - apply rel_inj; auto.
+  - intros n H. left; auto.
+  - intros j l. right; eauto.
+Qed.
+Print Assumptions C12_node_correspondence_bijective.
+
+(* The same, relative to a set U of (call, label) pairs that contains every label of every document
+   ([covers]) and on which alone the supplies need to be injective and clear of constants. *)
+Theorem C12_run_supply_independent_on : forall (U : N -> N -> Prop) (fresh1 fresh2 : N -> N -> N),
+  (forall j l j' l', U j l -> U j' l' -> fresh1 j l = fresh1 j' l' -> j = j' /\ l = l') ->
+  (forall j l j' l', U j l -> U j' l' -> fresh2 j l = fresh2 j' l' -> j = j' /\ l = l') ->
+  (forall j l, U j l -> (1000 <= fresh1 j l)%N /\ N.even (fresh1 j l) = true) ->
+  (forall j l, U j l -> (1000 <= fresh2 j l)%N /\ N.even (fresh2 j l) = true) ->
+  forall init ds, init_wf init = true -> forallb doc_wf ds = true -> covers U 0 ds ->
+  obs_rel (node_rel_on U fresh1 fresh2) (run fresh1 0 [] init ds) (run fresh2 0 [] init ds).
+Proof.
+  intros U f1 f2 I1 I2 R1 R2 init ds Hi Hd Hc. apply (OnU.run_rel U f1 f2); auto.
+  - constructor.
+  - now apply OnU.init_rel.
+Qed.
+Print Assumptions C12_run_supply_independent_on.
+
+(* Instance: the run the correspondence suite evaluates (supply [std_fresh], injective for labels
+   below LB = 16 only) is related in this way to the run under ANY supply that never repeats -
+   so what C12_merge / C12_labels_scoped say of the latter is, node for node, what the suite
+   compares with rdflib, for documents whose labels are below LB. *)
+Theorem C12_suite_run_supply_independent : forall fresh2 : N -> N -> N,
+  (forall j l j' l', fresh2 j l = fresh2 j' l' -> j = j' /\ l = l') ->
+  (forall j l, (1000 <= fresh2 j l)%N /\ N.even (fresh2 j l) = true) ->
+  forall init ds, init_wf init = true -> forallb doc_wf ds = true ->
+  covers (fun _ l => (l < LB)%N) 0 ds ->
+  obs_rel (node_rel_on (fun _ l => (l < LB)%N) std_fresh fresh2)
+          (run std_fresh 0 [] init ds) (run fresh2 0 [] init ds).
+Proof.
+  intros f2 I2 R2 init ds Hi Hd Hc.
+  apply C12_run_supply_independent_on; auto.
+  - intros j l j' l' H H'. now apply std_fresh_inj.
+  - intros j l _. apply std_fresh_range.
+Qed.
+Print Assumptions C12_suite_run_supply_independent.
 
 Example C12_nonvacuous :
   wf w_ok /\ kf w_ok = 0%N /\ length (model_obs w_ok) = 3%nat /\ spec_ok w_ok (model_obs w_ok) = true.
